@@ -10,7 +10,7 @@ use std::collections::{BTreeMap, BTreeSet};
 
 pub const BOUNDS: [f64; 3] = [0.01, 0.0001, 0.00001];
 pub const ALPHA: f64 = 1e-9;
-const DELIVERY_NAMES: [&str; 3] = ["one batch", "one call per symbol", "K at once then one by one"];
+const DELIVERY_NAMES: [&str; 5] = ["one batch", "one call per symbol", "K at once then one by one", "one batch with a retransmitted copy inside", "one call per symbol with retransmitted copies in between"];
 const MODE_NAMES: [&str; 4] = ["uniform", "loss10", "loss40", "loss90"];
 
 fn ln_gamma(x: f64) -> f64 {
@@ -110,7 +110,9 @@ pub struct Trial {
     pub mode: u8,
     pub esis: Vec<u32>,
     pub data_seed: u64,
-    /// 0: one decode() call with all K+h symbols; 1: one call per symbol; 2: K symbols at once, the rest one by one
+    /// 0: one decode() call with all K+h symbols; 1: one call per symbol; 2: K symbols at once, the
+    /// rest one by one; 3: one call, with a retransmitted copy of an earlier symbol in the middle;
+    /// 4: one call per symbol, with retransmitted copies in between
     pub delivery: u8,
 }
 
@@ -173,10 +175,12 @@ pub fn gen_trial(seed: u64, h: u32, thorough: bool, large: bool) -> Trial {
     }
     let mut esis: Vec<u32> = set.into_iter().collect();
     r.shuffle(&mut esis);
-    let delivery = match r.below(4) {
+    let delivery = match r.below(6) {
         0 | 1 => 0,
         2 => 1,
-        _ => 2,
+        3 => 2,
+        4 => 3,
+        _ => 4,
     };
     Trial { k, h, mode, esis, data_seed: 0x0C03_0000 + k as u64, delivery }
 }
@@ -223,6 +227,31 @@ pub fn run_trial(t: &Trial) -> Result<bool, String> {
         let mut dec = SourceBlockDecoder::new(0, &cfg, data.len() as u64);
         match t.delivery {
             0 => dec.decode(packets),
+            3 => {
+                // the K+h distinct symbols in one call, with a retransmission somewhere after the first
+                let mut v = packets;
+                if v.len() >= 2 {
+                    let at = 1 + (t.esis[0] as usize) % (v.len() - 1);
+                    let dup = v[(t.esis[v.len() - 1] as usize) % at].clone();
+                    v.insert(at, dup);
+                }
+                dec.decode(v)
+            }
+            4 => {
+                let mut r = None;
+                let n = packets.len();
+                for (i, p) in packets.iter().enumerate() {
+                    if r.is_some() {
+                        break;
+                    }
+                    r = dec.decode(std::iter::once(p.clone()));
+                    if r.is_none() && i > 0 && (t.esis[i] % 3 == 0) && i + 1 < n {
+                        // a retransmitted copy of an earlier symbol
+                        r = dec.decode(std::iter::once(packets[(t.esis[i] as usize / 3) % i].clone()));
+                    }
+                }
+                r
+            }
             d => {
                 // the same K+h symbols reach the decoder in several calls (arrival order = the
                 // shuffled order of the set); the trial succeeds as soon as any call answers
@@ -261,7 +290,7 @@ struct Acc {
     band: [[[u64; 2]; 3]; 3],
     per_k: BTreeMap<u32, [u64; 6]>,
     per_mode: [[u64; 2]; 4],
-    per_delivery: [[u64; 2]; 3],
+    per_delivery: [[u64; 2]; 5],
     states: HashSet64,
     samples: Vec<serde_json::Value>,
 }
@@ -352,7 +381,7 @@ pub fn run(ctx: &Ctx) -> i32 {
                 a.per_mode[m][0] += b.per_mode[m][0];
                 a.per_mode[m][1] += b.per_mode[m][1];
             }
-            for m in 0..3 {
+            for m in 0..5 {
                 a.per_delivery[m][0] += b.per_delivery[m][0];
                 a.per_delivery[m][1] += b.per_delivery[m][1];
             }
@@ -457,7 +486,7 @@ pub fn run(ctx: &Ctx) -> i32 {
             level: "exploration",
             evaluations: acc.n.iter().sum(),
             distinct_nontrivial: acc.states.len() as u64,
-            rule: "one evaluation = one decoding trial: a seeded set of exactly K+h distinct encoding symbols (uniform over all 2^24 ids, or a channel mixture of surviving source symbols topped up with uniformly drawn repair ids; never the trivial all-source set) handed to a fresh SourceBlockDecoder in one call, one call per symbol, or K at once and the rest one by one; failure = no call answered. Decision: exact binomial tests of the failure counts, pooled and per block-size band (K<=120, 121..1000, large blocks 2000..10000), against the advertised bounds at alpha = 1e-9 each. distinct_nontrivial = distinct (K, h, symbol set) trials".into(),
+            rule: "one evaluation = one decoding trial: a seeded set of exactly K+h distinct encoding symbols (uniform over all 2^24 ids, or a channel mixture of surviving source symbols topped up with uniformly drawn repair ids; never the trivial all-source set) handed to a fresh SourceBlockDecoder in one call, one call per symbol, K at once and the rest one by one, or the same with retransmitted copies of earlier symbols in between; failure = no call answered. Decision: exact binomial tests of the failure counts, pooled and per block-size band (K<=120, 121..1000, large blocks 2000..10000), against the advertised bounds at alpha = 1e-9 each. distinct_nontrivial = distinct (K, h, symbol set) trials".into(),
             samples: acc.samples.clone(),
             extra: json!({
                 "per_overhead": stats,
@@ -465,7 +494,7 @@ pub fn run(ctx: &Ctx) -> i32 {
                 "ratios": ratios,
                 "highest_failure_rate_block_sizes_h0": worst_k,
                 "per_mode": (0..4).map(|m| json!({"mode": MODE_NAMES[m], "trials": acc.per_mode[m][0], "failures": acc.per_mode[m][1]})).collect::<Vec<_>>(),
-                "per_delivery": (0..3).map(|m| json!({"delivery": DELIVERY_NAMES[m], "trials": acc.per_delivery[m][0], "failures": acc.per_delivery[m][1]})).collect::<Vec<_>>(),
+                "per_delivery": (0..5).map(|m| json!({"delivery": DELIVERY_NAMES[m], "trials": acc.per_delivery[m][0], "failures": acc.per_delivery[m][1]})).collect::<Vec<_>>(),
                 "distinct_block_sizes": acc.per_k.len(),
                 "alpha": ALPHA,
                 "fault_kinds_fired": {"symbol_loss": "every trial (the erasure pattern is the fault sequence)"},
